@@ -17,6 +17,7 @@ func init() {
 	vRegister("VerifHarness_C13_String", VerifHarness_C13_String)
 	vRegister("VerifHarness_C13_Float", VerifHarness_C13_Float)
 	vRegister("VerifHarness_C13_UnsignedBatch", VerifHarness_C13_UnsignedBatch)
+	vRegister("VerifHarness_C13_Timestamps", VerifHarness_C13_Timestamps)
 }
 
 func vC13Ints(maxQuick, maxThorough int) []int64 {
@@ -147,6 +148,60 @@ func VerifHarness_C13_IntegerCross() {
 	vAssert(dec.Error() == nil, "C13.int-cross-batch-to-iter-ok")
 	vAssert(i == len(vals), "C13.int-cross-batch-to-iter-count")
 	vReach("C13.int-cross.end")
+}
+
+// Timestamps: delta + divisor (10^k) scaling + RLE / simple8b / raw framing, iterator encoder and
+// both decoders. Strictly increasing timestamps (what the cache hands to the encoder).
+func VerifHarness_C13_Timestamps() {
+	max := 3
+	if vThorough() {
+		max = 4
+	}
+	n := vLen("n", 1, max)
+	ts := make([]int64, n)
+	// timestamps in a window of 2^44 ns (~4.9 h) above a symbolic multiple-of-nothing base: the
+	// divisor search takes v % 10^k on the deltas, which only cvc5's integer mode decides, and
+	// only for bounded deltas
+	base := vRange("base", -(1 << 62), 1<<62)
+	for i := range ts {
+		if i == 0 {
+			ts[i] = base
+		} else {
+			d := vRange("delta", 1, 1<<44)
+			ts[i] = ts[i-1] + d
+		}
+	}
+	enc := NewTimeEncoder(n)
+	for _, t := range ts {
+		enc.Write(t)
+	}
+	b, err := enc.Bytes()
+	vAssert(err == nil, "C13.time-encode-ok")
+	if err != nil {
+		return
+	}
+	vObserve("scheme", b[0]>>4)
+	var dec TimeDecoder
+	dec.Init(b)
+	i := 0
+	for dec.Next() {
+		if i < n {
+			vAssert(dec.Read() == ts[i], "C13.time-iter-roundtrip")
+		}
+		i++
+		if i > n+1 {
+			break
+		}
+	}
+	vAssert(dec.Error() == nil, "C13.time-iter-ok")
+	vAssert(i == n, "C13.time-iter-count")
+	got, err := TimeArrayDecodeAll(b, nil)
+	vAssert(err == nil, "C13.time-batch-ok")
+	vAssert(len(got) == n, "C13.time-batch-count")
+	for j := 0; j < n && j < len(got); j++ {
+		vAssert(got[j] == ts[j], "C13.time-batch-roundtrip")
+	}
+	vReach("C13.time.end")
 }
 
 func VerifHarness_C13_Boolean() {
